@@ -71,7 +71,8 @@ class GlencoeReader(TextToModel):
                     relation = Relation(feature, children, card_min, card_max)
                 else:
                     raise FlamaException(f"Invalid feature type in Glencoe model: {feature_type}")
-                feature.add_relation(relation)
+                if children:  # every child may be mandatory: then there is no group to relate
+                    feature.add_relation(relation)
         # Create an attribute for the 'note' parameter
         # note = features_info[feature_id]['note']
         # if note:
